@@ -28,7 +28,7 @@ Observation:  fetches=<k> L:<tok> w0:<tok>,... w1:... w2:... w3:...      (window
 import re, threading, time
 from e2e import rig
 
-CONF = ("cache_mem 64 MB\nmaximum_object_size_in_memory 2 MB\nquick_abort_min -1 KB\nmime_table /dev/null\n"
+CONF = ("cache_mem 64 MB\nmaximum_object_size_in_memory 2 MB\nquick_abort_min -1 KB\nmime_table /dev/null\nserver_persistent_connections off\n"
         "collapsed_forwarding %s\n")
 TYPES = {"P": (200, [("Cache-Control", "max-age=3600")]), "S": (404, []), "N": (200, [("Cache-Control", "private")])}
 SETTLE = 0.03
@@ -85,6 +85,7 @@ class Scenario:
         self.ended = {}          # fetch number -> it was answered completely
         self.ev = {name: threading.Event() for name in ("req0", "go1", "hdr", "go2", "p1", "go3", "end")}
         self.nbar = 0
+        self.date = rig.date_now()       # one Date for every fetch of the scenario: "Date going back" (sawDateGoBack) is another property
         h.origin.on(sid, self.handler)
 
     def url(self):
@@ -94,17 +95,17 @@ class Scenario:
         sc = self.sc
         status, extra = TYPES[sc["T"]]
         b = body_of(self.sid, k, sc["n"])
-        hd = [("X-Fetch", str(k))] + extra
+        hd = [("Date", self.date), ("X-Fetch", str(k))] + extra
         if sc["F"] == "l":
-            msg = rig.simple_response(status, b, hd)
+            msg = rig.simple_response(status, b, hd, date=False)
             hl = msg.index(b"\r\n\r\n") + 4
             return msg[:hl], [msg[hl:hl + len(b) // 3], msg[hl + len(b) // 3:]], b""
         if sc["F"] == "c":
-            head = rig.simple_response(status, b"", hd + [("Transfer-Encoding", "chunked")], cl=False)
+            head = rig.simple_response(status, b"", hd + [("Transfer-Encoding", "chunked")], cl=False, date=False)
             parts = [b[:len(b) // 3], b[len(b) // 3:]]
             enc = [(b"%x\r\n" % len(p) + p + b"\r\n") if p else b"" for p in parts]
             return head, enc, b"0\r\n\r\n"
-        head = rig.simple_response(status, b"", hd + [("Connection", "close")], cl=False)
+        head = rig.simple_response(status, b"", hd + [("Connection", "close")], cl=False, date=False)
         return head, [b[:len(b) // 3], b[len(b) // 3:]], b""
 
     def handler(self, req):
